@@ -239,6 +239,35 @@ def check_string(s, rec=None, must_refuse=False, overridable_only=False, only_pl
                     f"faulty selector {s!r} (overridable={ov}) was accepted by creation and activation",
                     extra={"bucket": "silent-accept"},
                 )
+        if must_refuse:
+            # the fault must also be refused when the selector shares its probe with a valid one
+            for texts in ((COMPANION, s), (s, COMPANION)):
+                for ov in variants:
+                    p = None
+                    try:
+                        try:
+                            p = probing(*texts, env=ENV, overridable=ov)
+                            p.__enter__()
+                        except _Hang:
+                            raise
+                        except BaseException as e:
+                            bad = classify_activation(e)
+                            if bad:
+                                raise PropertyViolation(
+                                    "activation", f"probing{texts!r} (overridable={ov}) create/enter: {bad}",
+                                    extra={"bucket": "activation-multi:" + HY.exc_bucket(e)})
+                        else:
+                            try:
+                                p.__exit__(None, None, None)
+                            except BaseException:  # noqa
+                                pass
+                            raise PropertyViolation(
+                                "silent-accept",
+                                f"faulty selector {s!r} was accepted when it shares a probe with {COMPANION!r}: "
+                                f"probing{texts!r} (overridable={ov}) was created and activated",
+                                extra={"bucket": "silent-accept-multi"})
+                    finally:
+                        _cleanup()
         if status == "valid" and refused_all:
             status = "rejected-activation"
     if rec is not None:
@@ -261,6 +290,9 @@ def guarded(s, rec, **kw):
         )
     finally:
         signal.setitimer(signal.ITIMER_PROF, 0)
+
+
+COMPANION = "f > a"  # a valid, focused selector sharing the probe with a faulty one
 
 
 # --- semantic faults --------------------------------------------------------------------
